@@ -87,7 +87,17 @@ class Mgr:
             self.top_obj = lib
         self.cls = type(self.mgr)
 
+        def chain():
+            # executed INSIDE a tensor-algebra function: the backend function its body calls must be served by the calling
+            # thread's computational backend (C17_tenalg_call_runs_on_both_views)
+            if tenalg:
+                try:
+                    _ACCESS.chain = ("ok", tl.context(np.zeros(1)))
+                except Exception as e:  # noqa
+                    _ACCESS.chain = ("raised", repr(e)[:60])
+
         def marker(self_, *a, **k):
+            chain()
             return ("c17", self_)
 
         def logged_getattribute(self_, name):
@@ -124,7 +134,7 @@ class Mgr:
                 self.mgr.set_backend(self.names[k])
                 obj = self.mgr.current_backend()
                 if getattr(obj, "backend_name", None) == self.names[k]:
-                    obj.__dict__[fn] = (lambda o: (lambda *a, **kw: ("c17", o)))(obj)
+                    obj.__dict__[fn] = (lambda o: (lambda *a, **kw: (chain(), ("c17", o))[1]))(obj)
                     for j in self.dfuns:
                         obj.__dict__[self.dnames[j]] = obj.__dict__[fn]
                     for j in self.dattrs:
@@ -233,12 +243,25 @@ class Mgr:
         m = self.mgr
         q = m.get_backend()
         qc = self.code.get(q, 99)
+        _ACCESS.chain = None
         r = getattr(self.mod, self.fn)(*self.args)          # the dynamically dispatched function
         if isinstance(r, tuple) and len(r) == 2 and r[0] == "c17":
             d = self.token(r[1])
         else:
             d = None                                         # executed by an unmarked (stock class) object
         routes = []
+        if self.tenalg and d is not None:
+            # the backend function called from INSIDE the tenalg function vs the same function called directly by this thread
+            import tensorly as tl
+            B = Mgr.get(False)
+
+            def btok(x):
+                return B.token(x[1]) if isinstance(x, tuple) and len(x) == 2 and x[0] == "c17" else None
+            ch = _ACCESS.__dict__.get("chain")
+            direct = tl.context(self_zero())
+            if ch is None or ch[0] != "ok" or btok(ch[1]) != btok(direct):
+                routes.append(("tensorly.context called inside the tenalg function", ch if ch is None or ch[0] != "ok" else btok(ch[1]),
+                               "called directly", btok(direct)))
         r2 = getattr(m, self.fn)(*self.args)                # same function through the manager module
         d2 = self.token(r2[1]) if isinstance(r2, tuple) and len(r2) == 2 and r2[0] == "c17" else None
         if d2 != d:
@@ -267,6 +290,11 @@ class Mgr:
         """the public entry points: tensorly.set_backend / tensorly.backend_context (top-level aliases) for even
         thread ids, the manager module for odd ones"""
         return self.mod if (not self.tenalg and tid % 2 == 0) else self.mgr
+
+
+def self_zero():
+    import numpy as np
+    return np.zeros(1)
 
 
 def observe_mode(mode, full=False):
@@ -1302,14 +1330,14 @@ class ManualWorker(Worker):
             elif k == "set":
                 M = Mgr.get(cmd[1])
                 try:
-                    M.api(self.tid).set_backend(M.sel_obj(cmd[2]), local_threadsafe=cmd[3])
+                    M.api(self.tid).set_backend(M.sel_obj(cmd[2]), cmd[3])          # the flag passed positionally
                     self.reply("done")
                 except Exception:  # noqa
                     self.reply("rejected")
             elif k == "enter":
                 M = Mgr.get(cmd[1])
                 try:
-                    cm = M.api(self.tid).backend_context(M.sel_obj(cmd[2]), local_threadsafe=cmd[3])
+                    cm = M.api(self.tid).backend_context(M.sel_obj(cmd[2]), cmd[3])     # the flag passed positionally
                     cm.__enter__()
                     stacks[cmd[1]].append(cm)
                     self.reply("done")
@@ -1494,6 +1522,42 @@ def systematic_dhistories(m):
     return out
 
 
+def exhaustive_dhistories(m, n):
+    """EVERY feasible sequence of n letters of a 12-letter (tenalg: 11) dispatch alphabet - selections of threads 1 and 2 (local /
+    global set, global / local context, exit), use_static_dispatch by either, use_dynamic_dispatch, captures through each
+    route - followed by a fixed suffix: thread 1 and a thread started at that moment use every captured reference and
+    every (route, name) pair of two names"""
+    M = Mgr.get(m)
+    al = [("set", 1, m, ("o", 1), True), ("set", 1, m, ("o", 1), False), ("enter", 2, m, ("n", 1), False),
+          ("enter", 2, m, ("o", 0), True), ("exit", 2, m, False), ("static", 1, m), ("static", 2, m), ("dynamic", 1, m),
+          ("capture", 1, m, 0, 0), ("capture", 2, m, 1, 1), ("capture", 1, m, 2, 0)]
+    names = [0, 1]
+    if M.dattrs:
+        al.append(("capture", 2, m, 0, 2))
+        names = [0, 2]
+    out = []
+    for h in itertools.product(al, repeat=n):
+        depth, ok, ncaps = 0, True, 0
+        for op in h:
+            if op[0] == "enter":
+                depth += 1
+            elif op[0] == "exit":
+                if not depth:
+                    ok = False
+                    break
+                depth -= 1
+            elif op[0] == "capture":
+                ncaps += 1
+        if not ok:
+            continue
+        suffix = []
+        for t in (1, 3):
+            suffix += [("callcap", t, m, k) for k in range(ncaps)]
+            suffix += [("call", t, m, r, nm) for r in (0, 1, 2) for nm in names]
+        out.append(tuple(h) + tuple(suffix))
+    return out
+
+
 DOUT = {"sel": 0, "none": 1, "ran": 2, "val": 3, "err": 4}
 ROUTE_DIG = {0: 0, 1: 1, 2: 2}
 
@@ -1514,7 +1578,8 @@ def top_names(M):
     import tensorly as tl
     if getattr(M, "_top_names", None) is None:
         try:
-            bound = _imported_names(tl, "backend") if not M.tenalg else _imported_names(M.top_obj, "tenalg")
+            # tenalg: whatever the library module holds under the name (however it was bound) is what its code calls
+            bound = _imported_names(tl, "backend") if not M.tenalg else set(vars(M.top_obj))
         except Exception:  # noqa
             bound = set(vars(M.top_obj))
         M._top_names = [n for n, nm in enumerate(M.dnames) if nm in bound]
@@ -1809,6 +1874,29 @@ def _binding_kind(manager_cls, listname):
     raise Unsupported("use_dynamic_dispatch: no loop over cls." + listname)
 
 
+def _static_kinds(manager_cls, cur_kind):
+    """the look-up use_static_dispatch evaluates (once) for the names of _functions and of _attributes"""
+    fn = _fn_ast(manager_cls.use_static_dispatch.__func__)
+    out = {}
+    for st in fn.body:
+        if isinstance(st, ast.For):
+            ch = _attr_chain(st.iter)
+            sets = [x.value for x in ast.walk(st) if isinstance(x, ast.Expr) and isinstance(x.value, ast.Call)
+                    and getattr(x.value.func, "id", None) == "setattr"]
+            if not ch or ch[0] != "cls" or len(sets) != 1 or len(sets[0].args) != 3:
+                raise Unsupported("use_static_dispatch: loop")
+            v = sets[0].args[2]
+            if isinstance(v, ast.Call) and getattr(v.func, "id", None) == "staticmethod" and len(v.args) == 1:
+                v = v.args[0]
+            if not (isinstance(v, ast.Call) and getattr(v.func, "id", None) == "getattr" and len(v.args) == 2
+                    and isinstance(v.args[1], ast.Name) and v.args[1].id == "name"):
+                raise Unsupported("use_static_dispatch binds " + ast.unparse(v)[:60])
+            out[ch[1]] = _lookup_kind(v.args[0], cur_kind)
+    if set(out) != {"_functions", "_attributes"}:
+        raise Unsupported("use_static_dispatch: loops over " + str(sorted(out)))
+    return [out["_functions"], out["_attributes"]]
+
+
 def _imported_names(module, frm):
     tree = ast.parse(inspect.getsource(module))
     out = set()
@@ -1864,6 +1952,8 @@ def dispatch_source_digits(Ms, dc):
         raise Unsupported("descriptor __get__ shape")
     ds = [7, wrap_kind, cur_kind, get_kind, inst_kind, cls_test, cls_kind, int(dc), int("int64" in _imported_names(tl, "backend"))]
     from tensorly.tenalg import TenalgBackendManager
+    for cls in (bm, TenalgBackendManager):
+        ds += _static_kinds(cls, cur_kind)
     for cls in (bm, TenalgBackendManager):
         ds += [_binding_kind(cls, "_functions"), _binding_kind(cls, "_attributes")]
     mod_getattr = any(isinstance(st, ast.Assign) and getattr(st.targets[0], "id", None) == "__getattr__"
@@ -1995,8 +2085,9 @@ def make_groups(tier, rng):
     # the dispatch layer: every route to a dispatched name, references captured before a switch and called by other
     # threads, threads started inside contexts, use_static_dispatch / use_dynamic_dispatch (Model/BackendDispatch.v)
     for m in (0, 1):
-        groups.append((8 + m, False, 4, systematic_dhistories(m) + [random_dhistory(rng, m, 14 if quick else 40) for _ in range(500 if quick else 2500)],
+        groups.append((8 + m, False, 4, systematic_dhistories(m) + [random_dhistory(rng, m, 14 if quick else 40) for _ in range(300 if quick else 2500)],
                        "dispatch-routes"))
+        groups.append((8 + m, False, 4, exhaustive_dhistories(m, 3), "dispatch-exhaustive-3"))
     return groups
 
 
@@ -2201,8 +2292,10 @@ def run(chk):
                        "current source (ast) for both manager classes and checked in Coq (effect-point discipline, block equivalence with the model's programs "
                        "on 18 states each). DISPATCH (Model/BackendDispatch.v), per manager: 8 systematic histories (every (route, name) captured by thread 1 before a "
                        "switch of thread 2 - set / context, local / global, with and without use_static_dispatch - then called by every thread incl. one STARTED "
-                       "inside the context, through every route) + 500 (thorough 2500) random histories to length 14 (40) over {selections, use_static_dispatch, "
-                       "use_dynamic_dispatch, capture, call captured, call} x routes {manager module, import-time binding / module __getattr__ (tensorly.<name>; for "
+                       "inside the context, through every route) + 300 (thorough 2500) random histories to length 14 (40) over {selections, use_static_dispatch, "
+                       "use_dynamic_dispatch, capture, call captured, call} + EVERY feasible sequence of 3 letters (1393 / 1056 histories) of a 12-letter dispatch alphabet (tenalg 11: "
+                       "4 selections of two threads, exit, use_static_dispatch by either, use_dynamic_dispatch, captures through each route) followed by a fixed suffix in which "
+                       "thread 1 and a thread started at that moment use every captured reference and every (route, name) pair of two names; x routes {manager module, import-time binding / module __getattr__ (tensorly.<name>; for "
                        "tenalg: the name a library module imported), manager class} x names {2 functions, 2 attributes (backend only)}; every outcome (executing "
                        "object / object whose attribute was served / AttributeError) compared with the model; after each history without use_static_dispatch every actor "
                        "thread holding a harness backend runs LIBRARY code (tensorly.base.unfold, tenalg.mode_dot, tucker_to_tensor) under attribute-access logging. "
@@ -2217,8 +2310,8 @@ def run(chk):
         if i == dsrc_id:
             chk.disagreement("corr:C17 dispatch source (the look-up expressions of the dispatch closure / descriptor / current_backend / get_backend, what "
                              "use_dynamic_dispatch installs, or the names bound at import differ from Model/BackendDispatch.v's parameters)",
-                             {"digits [closure, current_backend, get_backend, descriptor(instance), class test, descriptor(class), probed, "
-                              "installs x4, module __getattr__, (function?, attribute?, bound at import?) per modelled name]": dsd[1:]})
+                             {"digits [closure, current_backend, get_backend, descriptor(instance), class test, descriptor(class), probed, int64 in import list, "
+                              "use_static_dispatch look-ups x4, installs x4, module __getattr__, (function?, attribute?, bound at import?) per modelled name]": dsd[1:]})
             continue
         if i in src_ids:
             m, progs = src_ids[i]
